@@ -234,6 +234,10 @@ def examine(X, mode, texts, label, use_plain=False):
                     ss = lexgen.run_sharded([ck.drv_path()], ["spec " + hx(c)], shards=1)[0] if ck.drv_ok else None
                     return (reconstruct_ok(X, c, hh) or (ss is not None and spec_ok(X, hh, ss))) is not None
                 small = shrink(X, mode, t, bad)
+                if small != t:
+                    hh = parse_line(lexgen.run_sharded([X.harness], ["raw " + hx(small)], env=ASAN_ENV, shards=1)[0])
+                    ss = lexgen.run_sharded([ck.drv_path()], ["spec " + hx(small)], shards=1)[0] if ck.drv_ok else None
+                    why = reconstruct_ok(X, small, hh) or (spec_ok(X, hh, ss) if ss is not None else why) or why
             ck.report({"kind": "ok-predicate", "mode": mode, "input_hex": hx(small), "input": repr(small),
                        "original_input_hex": hx(t), "why": why, "impl": hout[i][:600],
                        "reference": (sout[i][:600] if sout else None), "set": label,
@@ -405,7 +409,7 @@ def random_check(X):
 
 # ----------------------------------------------------------------------------- spec validation (clang)
 CLANG_PUNCT = None
-_CL = re.compile(r"(?s)(\w+) '(.*?)'\t(?: \[[^\n]*?\])*\t?Loc=<[^>\n]*?:(\d+):(\d+)>\n")
+_CL = re.compile(r"(?s)(\w+) '(.*?)'\t(?: \[[^\n]*?\])*\t?Loc=<[^>\n]*?t\d+\.c:(\d+):(\d+)>\n")
 
 
 def clang_tokens(path):
@@ -436,13 +440,18 @@ def validate_spec(X, texts):
     good = good[:1500 if ck.quick else 6000]
     sout = lexgen.run_sharded([ck.drv_path()], ["spec %s" % hx(t) for t in good])
     n = 0
-    for t, sl in zip(good, sout):
+    import concurrent.futures
+    paths = []
+    for k, t in enumerate(good):
+        p = os.path.join(d, "t%d.c" % k)
+        open(p, "wb").write(t)
+        paths.append(p)
+    with concurrent.futures.ThreadPoolExecutor(common.NPROC) as ex:
+        cts = list(ex.map(clang_tokens, paths))
+    for t, sl, ct in zip(good, sout, cts):
         stoks, serr = parse_spec(sl)
         if serr is not None:
             continue
-        p = os.path.join(d, "t.c")
-        open(p, "wb").write(t)
-        ct = clang_tokens(p)
         ref = []
         pending = False
         bad = False
@@ -534,16 +543,21 @@ def run(ck):
     if corpus:
         examine(X, "raw", corpus, "corpus")
     steps = [keywords_check, numeric_check, random_check, exhaustive]
+    import time
     for st in steps:
         if ck.violations:
             break
+        t0 = time.time()
         st(X)
+        X.ninputs["seconds:" + st.__name__] = round(time.time() - t0, 1)
     if not ck.violations:
         kwl = [w.encode() for w, _ in X.kws]
         vt = [lexgen.random_text(ck.rng, ck.rng.choice([1, 2, 4, 9, 25]), kwl) for _ in range(2500 if ck.quick else 9000)]
         vt += lexgen.numeric_forms(ck.rng, True)[:800]
         vt += [bytes(t) for t in itertools.product(lexgen.ALPHABET, repeat=2)]
+        t0 = time.time()
         validate_spec(X, vt)
+        X.ninputs["seconds:validate_spec"] = round(time.time() - t0, 1)
     ck.cov["token_kind_histogram"] = {X.kname.get(k, str(k)): v for k, v in sorted(X.hist.items(), key=lambda kv: -kv[1])}
     ck.cov["error_kinds"] = X.errs
     ck.cov["inputs_per_set"] = X.ninputs
